@@ -68,6 +68,10 @@ class SymExec:
         self.call_hook, self.attr_hook = call_hook, attr_hook
         self.ret = None
 
+    def spawn(self):
+        """a fresh executor of the same kind (subclasses override) for loop bodies and branches"""
+        return SymExec({}, self.call_hook, self.attr_hook)
+
     # ---------------------------------------------------------------- expressions
     def lift(self, op, *args):
         if any(isinstance(a, Vec) for a in args):
@@ -210,7 +214,7 @@ class SymExec:
         for k, v in before.items():                       # loop-carried scalars become placeholders
             if isinstance(v, tuple):
                 placeholders[k] = ("var", f"__carry_{k}")
-        sub = SymExec({}, self.call_hook, self.attr_hook)
+        sub = self.spawn()
         sub.env = dict(before)
         sub.env.update(placeholders)
         sub.env[ivar] = ("var", ivar)
@@ -235,8 +239,8 @@ class SymExec:
 
     def run_if(self, st):
         cond = self.ev(st.test)
-        a = SymExec({}, self.call_hook, self.attr_hook); a.env = dict(self.env); a.run(st.body)
-        b = SymExec({}, self.call_hook, self.attr_hook); b.env = dict(self.env); b.run(st.orelse)
+        a = self.spawn(); a.env = dict(self.env); a.run(st.body)
+        b = self.spawn(); b.env = dict(self.env); b.run(st.orelse)
         if (a.ret is None) != (b.ret is None):
             raise Unsupported("return in one branch only")
         if a.ret is not None:
@@ -246,6 +250,8 @@ class SymExec:
             va, vb = a.env.get(k), b.env.get(k)
             if va is vb:
                 self.env[k] = va
+            elif va is None or vb is None:
+                self.env.pop(k, None)                     # defined on one path only: unusable afterwards
             elif isinstance(va, tuple) and isinstance(vb, tuple):
                 self.env[k] = va if va == vb else ("ite", cond, va, vb)
             else:
